@@ -83,6 +83,12 @@ UnravelRec(shape, t, k) ==
     ELSE UnravelRec(shape, t \div shape[k], k - 1) \o <<t % shape[k]>>
 Unravel(shape, t) == UnravelRec(shape, t, Len(shape))
 
+(* Inverse: position of index tuple idx in row-major order. *)
+RECURSIVE RavelRec(_, _, _)
+RavelRec(shape, idx, k) ==
+    IF k = 0 THEN 0 ELSE RavelRec(shape, idx, k - 1) * shape[k] + idx[k]
+Ravel(shape, idx) == RavelRec(shape, idx, Len(shape))
+
 (* Cell of the t-th element in logical (row-major) order. *)
 AddrAt(g, t) == Addr(g, Unravel(g.shape, t))
 AddrSet(g) == {AddrAt(g, t) : t \in 0..(Size(g) - 1)}
